@@ -543,7 +543,6 @@ def structural_items(cfg, model, rng, key, nonce, aad, ct, tag, pt):
         if reauth and not siv:
             items.append((kind + "+retag", detail, k, n, a, c, REAUTH))
 
-
     def pos3(x):
         f = flips(x)
         return f[1:2] if light else f          # bulk cases: the middle position only
